@@ -107,7 +107,9 @@ class PersistentMixin(Module):
             try:
                 pobj = self.parameters[pname]
                 if getattr(pobj, 'persistent', False):
-                    result[pname] = self.parameters[pname].datatype.import_value(value)
+                    datatype = pobj.datatype
+                    # a stored value must be a complete and valid value of the current datatype
+                    result[pname] = datatype.validate(datatype(datatype.import_value(value)))
             except Exception as e:
                 # ignore invalid persistent data (in case parameters have changed)
                 self.log.warning('can not restore %r to %r (%r)', pname, value, e)
